@@ -358,6 +358,13 @@ func (a *API) SubF(ctx context.Context, tok int) (<-chan float64, error) {
 			if t.Size > 0 && v%100000 == t.Size {
 				f = math.NaN()
 			}
+			// cancellation first: a select with two ready cases is decided by the Go
+			// runtime's own random choice, which no seed controls
+			if ctx.Err() != nil {
+				for range ci {
+				}
+				return
+			}
 			select {
 			case out <- f:
 			case <-ctx.Done():
@@ -437,6 +444,11 @@ func (a *API) SubT(ctx context.Context, tok int) (<-chan SubElem, error) {
 				el.Pad = Result(v, t.Size)
 			}
 			el.FillOptional()
+			if ctx.Err() != nil { // see SubF: never leave the choice to the runtime
+				for range ci {
+				}
+				return
+			}
 			select {
 			case out <- el:
 			case <-ctx.Done():
